@@ -315,4 +315,20 @@ example : WF cborIface exampleData where
     intro e he; cases he
     exact ⟨exampleExt, by decide, by decide, rfl⟩
 
+/-- **The setters may be called in any order**: attaching credential data, attaching extension outputs and
+setting flags commute, so a value does not depend on which was called first (no setter clears a bit or a
+section another one put there). -/
+theorem C12_setters_commute (a : AuthData) (c : Acd) (e : Option Bytes) (f : UInt8) :
+    (a.setAcd c).setExt e = (a.setExt e).setAcd c
+    ∧ (a.setFlags f).setAcd c = (a.setAcd c).setFlags f
+    ∧ (a.setFlags f).setExt e = (a.setExt e).setFlags f := by
+  refine ⟨?_, ?_, ?_⟩
+  · cases e with
+    | none => rfl
+    | some e => simp [AuthData.setExt, AuthData.setAcd, AuthData.setFlags, or_right_comm8]
+  · simp [AuthData.setAcd, AuthData.setFlags, or_right_comm8]
+  · cases e with
+    | none => rfl
+    | some e => simp [AuthData.setExt, AuthData.setFlags, or_right_comm8]
+
 end PasskeyVerif.C12
